@@ -73,6 +73,18 @@ def write_graph(root, files, rng, fault=None):
         for j in f["includes"]:
             pos = rng.randint(0, len(lines))
             lines.insert(pos, '#include "{}"'.format(rel(f["dir"], files[j]["dir"], files[j]["name"], rng)))
+        if rng.random() < 0.4:
+            # conditional blocks inside the file (often #ifndef only): dead branches hold non-HERA text
+            k = rng.randrange(len(lines) + 1)
+            form = rng.choice(["ifndef-keep", "ifndef-keep", "ifdef-else", "ifndef-else", "ifdef-dead", "guard"])
+            junk = "this is { not HERA"
+            live = "SET(R{}, {})".format(1 + (i % 8), 7000 + i)
+            block = {"ifndef-keep": ["#ifndef HERA_C", live, "#endif"],
+                     "ifdef-else": ["#ifdef HERA_PY", live, "#else", junk, "#endif"],
+                     "ifndef-else": ["  #ifndef HERA_PY", junk, "  #else", live, "  #endif"],
+                     "ifdef-dead": ["#ifdef HERA_C", junk, junk, "#endif"],
+                     "guard": ["#ifndef HERA_PY", "#ifndef X", junk, "#endif", "#endif", live]}[form]
+            lines[k:k] = block
         if fault is not None and fault[0] == i:
             lines.insert(fault[1], "ADD(R1, R2)")        # wrong arity: a diagnostic that must be attributed to this file
         text = "\n".join(lines) + "\n"
@@ -87,7 +99,22 @@ def splice(i, written, files, stack=()):
     """Textual splicing: list of (op text, file index, line)."""
     path, text = written[i]
     res = []
+    blocks = []         # per open block: [enclosing kept, this branch kept]
     for ln, line in enumerate(text.split("\n"), 1):
+        t = line.strip()
+        kept = all(b[1] for b in blocks)
+        if t.startswith("#ifdef ") or t.startswith("#ifndef "):
+            cond = (t.split()[1] == "HERA_PY") != t.startswith("#ifndef ")
+            blocks.append([kept, kept and cond])
+            continue
+        if t == "#else" and blocks:
+            blocks[-1][1] = blocks[-1][0] and not blocks[-1][1]
+            continue
+        if t == "#endif" and blocks:
+            blocks.pop()
+            continue
+        if not kept:
+            continue
         if line.startswith("#include"):
             target = line.split('"')[1]
             tp = os.path.normpath(os.path.join(os.path.dirname(path), target))
@@ -197,9 +224,21 @@ def flatten_files(path, stack=()):
     out = []
     with open(path) as f:
         lines = f.read().split("\n")
+    blocks = []
     for i, l in enumerate(lines, start=1):
         t = l.split("//")[0].strip()
-        if not t:
+        kept = all(b[1] for b in blocks)
+        if t.startswith("#ifdef ") or t.startswith("#ifndef "):
+            cond = (t.split()[1] == "HERA_PY") != t.startswith("#ifndef ")
+            blocks.append([kept, kept and cond])
+            continue
+        if t == "#else" and blocks:
+            blocks[-1][1] = blocks[-1][0] and not blocks[-1][1]
+            continue
+        if t == "#endif" and blocks:
+            blocks.pop()
+            continue
+        if not t or not kept:
             continue
         m = re.match(r'^#include\s+"(.*)"$', t)
         if m:
@@ -257,9 +296,21 @@ def replay_case(case):
                 texts = []
 
                 def walk(path):
+                    blocks = []
                     for l in open(path).read().split("\n"):
                         t = l.split("//")[0].strip()
-                        if not t:
+                        kept = all(b[1] for b in blocks)
+                        if t.startswith("#ifdef ") or t.startswith("#ifndef "):
+                            cond = (t.split()[1] == "HERA_PY") != t.startswith("#ifndef ")
+                            blocks.append([kept, kept and cond])
+                            continue
+                        if t == "#else" and blocks:
+                            blocks[-1][1] = blocks[-1][0] and not blocks[-1][1]
+                            continue
+                        if t == "#endif" and blocks:
+                            blocks.pop()
+                            continue
+                        if not t or not kept:
                             continue
                         import re as _re
                         m = _re.match(r'^#include\s+"(.*)"$', t)
